@@ -403,3 +403,27 @@ Proof.
   cbn; autorewrite with obsf; cbn; try (split; reflexivity).
   all: split; [fold_proj o_sd_done|fold_proj o_after_sd_spawn]; reflexivity.
 Qed.
+
+Lemma note_late_oi o i : oi (note_late_commit o i) = oi o.
+Proof. unfold note_late_commit. destruct (o_stopreq _); [destruct (stopping o i)|]; reflexivity. Qed.
+Lemma note_late_onm o i : onm (note_late_commit o i) = onm o.
+Proof. unfold note_late_commit. destruct (o_stopreq _); [destruct (stopping o i)|]; reflexivity. Qed.
+Lemma note_late_o_th o i : o_th (note_late_commit o i) = o_th o.
+Proof. unfold note_late_commit. destruct (o_stopreq _); [destruct (stopping o i)|]; reflexivity. Qed.
+Lemma note_late_sd_cur o i : o_sd_cur (note_late_commit o i) = o_sd_cur o.
+Proof. unfold note_late_commit. destruct (o_stopreq _); [destruct (stopping o i)|]; reflexivity. Qed.
+Lemma note_late_sd_done o i : o_sd_done (note_late_commit o i) = o_sd_done o.
+Proof. unfold note_late_commit. destruct (o_stopreq _); [destruct (stopping o i)|]; reflexivity. Qed.
+Lemma note_late_after o i : o_after_sd_spawn (note_late_commit o i) = o_after_sd_spawn o.
+Proof. unfold note_late_commit. destruct (o_stopreq _); [destruct (stopping o i)|]; reflexivity. Qed.
+Lemma note_late_oi_get o i j : oi_get (note_late_commit o i) j = oi_get o j.
+Proof. unfold oi_get. now rewrite note_late_oi. Qed.
+#[export] Hint Rewrite note_late_oi note_late_onm note_late_o_th note_late_sd_cur note_late_sd_done note_late_after note_late_oi_get : obsf.
+
+Lemma get_thread_upd_inst i f s th : get_thread (upd_inst i f s) th = get_thread s th.
+Proof. unfold get_thread. now rewrite upd_inst_threads. Qed.
+Lemma get_thread_upd_vis n f s th : get_thread (upd_vis n f s) th = get_thread s th.
+Proof. unfold get_thread. now rewrite upd_vis_threads. Qed.
+Lemma get_thread_write_status n s0 s th : get_thread (write_status n s0 s) th = get_thread s th.
+Proof. unfold write_status. apply get_thread_upd_vis. Qed.
+#[export] Hint Rewrite get_thread_upd_inst get_thread_upd_vis get_thread_write_status : sup.
